@@ -1,3 +1,4 @@
+import operator
 from typing import Any
 from typing import Generic
 from typing import Iterable
@@ -27,6 +28,15 @@ __all__ = ["Array"]
 
 
 SelfT = TypeVar("SelfT", bound="Array")
+
+# the operations of the unit database as plain arithmetic (an operand that is a plain number)
+_PLAIN_OPERATIONS = {
+    "Sum": operator.add,
+    "Subtract": operator.sub,
+    "Multiply": operator.mul,
+    "Divide": operator.truediv,
+    "FloorDivide": operator.floordiv,
+}
 
 
 @ImplementsInterface(IArray)
@@ -427,6 +437,11 @@ class Array(AbstractValueWithQuantityObject, Generic[ValuesType]):
 
         unit_database = self.GetUnitDatabase()
         operation_func = getattr(unit_database, operation)
+        if kept_quantity is not None:
+            # the values are taken as they are (as Scalar does): matching the units inside the kept
+            # quantity (m.cm -> m.m) would rescale values that keep their unit
+            plain_operation = _PLAIN_OPERATIONS[operation]
+            operation_func = lambda q1, q2, v0, v1: (kept_quantity, plain_operation(v0, v1))
 
         # if handling numpy, just call it all at once!
         if values_iteration.IsNumpy():
